@@ -196,6 +196,91 @@ class Canon:
             return None
         return creation, seq
 
+    # ---- iterator elements in index form -------------------------------------------------------------------------
+    def coll_len(self, x):
+        """canonical length of a collection expression: the constant for arrays / constant sub-slices, else len(x)"""
+        import re as _re
+        from .prov import const_int
+        xs = strip(x)
+        m = _re.match(r'^(?:&(?:mut )?)*\[.*; (\d+)\]$', (xs.ty or '').strip())
+        if m:
+            return m.group(1)
+        if xs.k == 'call' and last(xs.name) in ('index', 'index_mut') and len(xs.args) == 2:
+            r = strip(xs.args[1])
+            if r.k == 'aggr' and r.name == 'RangeTo::RangeTo' and const_int(r.args[0]) is not None:
+                return str(const_int(r.args[0]))
+            if r.k == 'aggr' and r.name == 'Range::Range' and const_int(r.args[0]) is not None and const_int(r.args[1]) is not None:
+                return str(const_int(r.args[1]) - const_int(r.args[0]))
+        if xs.k == 'aggr' and xs.name == 'repeat':
+            m = _re.match(r'^\[.*; (\d+)\]$', (xs.ty or '').strip())
+            if m:
+                return m.group(1)
+        return 'len(%s)' % self.c(xs)
+
+    def coll_base(self, x):
+        """(canonical base, constant offset) of a collection that is a constant-start sub-slice x[a..] / x[a..b] / x[..b]"""
+        from .prov import const_int
+        xs = strip(x)
+        if xs.k == 'call' and last(xs.name) in ('index', 'index_mut') and len(xs.args) == 2:
+            r = strip(xs.args[1])
+            if r.k == 'aggr' and r.name == 'RangeTo::RangeTo':
+                return self.c(xs.args[0]), 0
+            if r.k == 'aggr' and r.name in ('Range::Range', 'RangeFrom::RangeFrom') and const_int(r.args[0]) is not None:
+                return self.c(xs.args[0]), const_int(r.args[0])
+        return self.c(xs), 0
+
+    def iter_element(self, it):
+        """the element an iterator yields, written as an indexed read of the underlying collection — the same text a
+        hand-written index loop produces: for x in a.iter() ~ a[i], i in 0..len;  .rev() ~ a[len-1-i];
+        .chunks_exact(k) ~ a[i*k..i*k+k];  .enumerate() ~ (i, a[i]);  .zip(b) ~ (a[i], b[i])"""
+        from .prov import const_int
+        it = strip(it)
+        rev = False
+        enum = False
+        while it.k == 'call' and last(it.name) in ('into_iter', 'by_ref', 'rev', 'enumerate', 'copied', 'cloned') and it.args:
+            if last(it.name) == 'rev':
+                rev = not rev
+            if last(it.name) == 'enumerate':
+                if rev:
+                    return None          # enumerate().rev() numbers from the end: not handled
+                enum = True
+            it = strip(it.args[0])
+
+        def one(src, depth=0):
+            src = strip(src)
+            while src.k == 'call' and last(src.name) in ('into_iter', 'by_ref', 'copied', 'cloned') and src.args:
+                src = strip(src.args[0])
+            if src.k == 'call' and last(src.name) in ('iter', 'iter_mut') and src.args:
+                coll = src.args[0]
+                n = self.coll_len(coll)
+                base, off = self.coll_base(coll)
+                I_ = 'each(Range::Range{0, %s})' % n
+                if rev:
+                    idx = 'SubWithOverflow(%s, %s).0' % (str(int(n) - 1 + off) if n.isdigit() else 'SubWithOverflow(%s, 1).0' % n, I_)
+                else:
+                    idx = I_ if not off else 'AddWithOverflow(%s, %d).0' % (I_, off)
+                return '%s[%s]' % (base, idx), I_
+            if src.k == 'call' and last(src.name) in ('chunks_exact', 'chunks_exact_mut') and len(src.args) == 2 and const_int(src.args[1]):
+                k_ = const_int(src.args[1])
+                coll = src.args[0]
+                L_ = self.coll_len(coll)
+                n = str(int(L_) // k_) if L_.isdigit() else 'Div(%s, %d)' % (L_, k_)
+                I_ = 'each(Range::Range{0, %s})' % n
+                i_ = I_ if not rev else 'SubWithOverflow(%s, %s).0' % (str(int(n) - 1) if n.isdigit() else 'SubWithOverflow(%s, 1).0' % n, I_)
+                a_ = 'MulWithOverflow(%s, %d).0' % (i_, k_)
+                return 'index(%s, Range::Range{%s, AddWithOverflow(%s, %d).0})' % (self.c(coll), a_, a_, k_), I_
+            return None
+        if it.k == 'call' and last(it.name) == 'zip' and len(it.args) == 2:
+            a_, b_ = one(it.args[0]), one(it.args[1])
+            if a_ and b_:
+                el = 'tuple{%s, %s}' % (a_[0], b_[0])
+                return 'tuple{%s, %s}' % (a_[1], el) if enum else el
+            return None
+        r = one(it)
+        if r is None:
+            return None
+        return 'tuple{%s, %s}' % (r[1], r[0]) if enum else r[0]
+
     def seq(self, creation, seq):
         out = []
         cr = strip(creation)
@@ -295,13 +380,33 @@ class Canon:
                     it = strip(src.args[0])
                     while it.k == 'call' and last(it.name) in ('into_iter', 'iter', 'by_ref'):
                         it = strip(it.args[0])
+                    el_ = self.iter_element(src.args[0])
+                    if el_ is not None:
+                        return el_
                     return 'each(%s)' % self.c(it)
                 return '%s!' % self.c(src)
             if e.name in ('x', 'y'):
                 a = strip(e.args[0])
                 if a.k == 'call' and last(a.name) == 'to_affine_point':
                     return 'aff%s(%s)' % (e.name, self.c(a.args[0]))
-            return self.c(e.args[0]) + '.' + e.name
+            in_s = self.c(e.args[0])
+            if in_s.startswith('tuple{') and in_s.endswith('}') and (e.name or '').isdigit():
+                # component of a known tuple (element of enumerate()/zip() written in index form)
+                parts, depth_, cur = [], 0, ''
+                for ch in in_s[6:-1]:
+                    if ch in '([{':
+                        depth_ += 1
+                    elif ch in ')]}':
+                        depth_ -= 1
+                    if ch == ',' and depth_ == 0:
+                        parts.append(cur.strip()); cur = ''
+                    else:
+                        cur += ch
+                if cur.strip():
+                    parts.append(cur.strip())
+                if int(e.name) < len(parts):
+                    return parts[int(e.name)]
+            return in_s + '.' + e.name
         if k == 'call':
             ln = last(e.name)
             # unwrap(Some(x)) == x ; Option::as_ref is a view
